@@ -229,7 +229,9 @@ def run_filter(case):
 
 
 CONCRETE = [[0] * 30, [1] * 30, [F(1, 2), -3, 0, 7, F(-2, 3), 1, 4, 4, -1, F(5, 7)] * 3,
-            [1] + [0] * 29]
+            [1] + [0] * 29,
+            # magnitudes far apart: exact arithmetic must not lose the small terms
+            [F(10) ** 30, F(1, 10 ** 30), -F(10) ** 30, 1, F(-1, 10 ** 30), 0, F(10) ** 30 + 1, -1, F(3, 7), 2] * 3]
 
 
 def gen_full(run):
@@ -239,7 +241,7 @@ def gen_full(run):
   for b in run.rot(list(vectors(ml, B_ALPHA))):
     for a in avs:
       i += 1
-      yield ([enc(c) for c in b], [enc(c) for c in a], "list", "exact", "sym", 5, i % 4, XKINDS[i % len(XKINDS)])
+      yield ([enc(c) for c in b], [enc(c) for c in a], "list", "exact", "sym", 5, i % 5, XKINDS[i % len(XKINDS)])
 
 
 def gen_variants(run):
@@ -251,7 +253,7 @@ def gen_variants(run):
           for zk in ZEROS:
             i += 1
             for L in ((0, 1, 2, 6)[i % 4],):
-              yield ([enc(c) for c in b], [enc(c) for c in a], ctor, memk, zk, L, i % 4 if L else None,
+              yield ([enc(c) for c in b], [enc(c) for c in a], ctor, memk, zk, L, i % 5 if L else None,
                      XKINDS[(i // 4) % len(XKINDS)])
   for bd, ad in SPARSE:
     for ctor in ("dict", "zexpr", "LinearFilter"):
